@@ -96,6 +96,9 @@ theorem produceMerged_ok (intervals : List (Blk × Strand)) (st : Strand) (hne :
   · rw [hoc, ← locationCovers_eq, hcov, List.map_map]
     rfl
 
+/-- since e559054 the gene_type plays no role in the merged feature's blocks -/
+theorem produceMerged_ht (ht : Bool) (l : List (Blk × Strand)) : produceMerged ht l = produceMerged true l := rfl
+
 /-- bounded comparison of position sets follows from equality everywhere -/
 theorem sameCover_of_forall {a b : List Blk} (h : ∀ q, coversBlocks a q = coversBlocks b q) : sameCover a b = true := by
   simp only [sameCover, List.all_eq_true, beq_iff_eq]
